@@ -15,11 +15,13 @@ ASSUMPTIONS = [
 ]
 
 TOKENS = ["foo", "foobar", "foo-x", "fo", "o", "bar", "Foo", "x", "a:b", "btn-primary", "\xe9", "f", "foo_", "b&r", '"q"']
+# tokens made of characters that mean something to pattern languages (utility-class frameworks use them)
+PATTERN_TOKENS = ["w-[200px]", "w-2", "w-p", "*:p-4", "hover:p-4", "fo?", "f*", "[a-z]", "a", "fo.", "(foo)", "foo|bar", "^foo", "foo$", "f+", "\\d", "*", "?"]
 WS = [" ", "  ", "\t", "\n", " \n ", "\r\n", "\f", ""]
 
 
 def tokens():
-    return st.one_of(st.sampled_from(TOKENS), st.sampled_from(TOKENS), st.text(alphabet="abfoxr-_:&1", min_size=1, max_size=5))
+    return st.one_of(st.sampled_from(TOKENS), st.sampled_from(TOKENS), st.text(alphabet="abfoxr-_:&1", min_size=1, max_size=5), st.sampled_from(PATTERN_TOKENS))
 
 
 def class_values():
@@ -68,6 +70,7 @@ def body_history(case, note):
         kw["data_q"] = "foo bar"
     tag = h.Tag("div", "child", **kw)
     toks = (case["cls"] or "").split()
+    toks0 = list(toks)
     style = case["style"]
     n_ops = 0
     classes = set()
@@ -152,7 +155,8 @@ def body_history(case, note):
         else:
             check((tag.attrs.get("class") or "").split() == toks, "class changed by a style operation")
         check(len(tag.children) == len(kids_before), "children changed")
-    note(interesting and n_ops >= 3, *sorted(classes))
+    blob = repr(case["ops"])
+    note(interesting and n_ops >= 3, *sorted(classes), "pattern-like-token-removed" if any(op[0] == "remove_class" and op[1] in PATTERN_TOKENS and len(toks0) >= 2 for op in case["ops"]) else "")
 
 
 # ---------------------------------------------------------------- css()
@@ -257,6 +261,6 @@ RULE = (
 )
 
 CLAUSES = [
-    Clause("history", body_history, strategy=case_strategy, quick=1000, thorough=15000, shards_quick=3, required=("attribute-dropped", "removed-present", "style-rejected", "op:add_class", "op:add_style", "op:has_class"), rule="see RULE"),
+    Clause("history", body_history, strategy=case_strategy, quick=1000, thorough=15000, shards_quick=3, required=("attribute-dropped", "removed-present", "style-rejected", "op:add_class", "op:add_style", "op:has_class", "pattern-like-token-removed"), rule="see RULE"),
     Clause("css", body_css, strategy=css_case, quick=1200, thorough=15000, shards_quick=2, required=("none-only", "camel", "bad-collapse", "same-property-twice", "non-ascii-capital-in-name"), rule="see RULE"),
 ]
